@@ -39,6 +39,8 @@ struct CommandAcknowledgementPair<Key, Value>
     where Key: Hash + Eq + Clone {
     command: CommandType<Key, Value>,
     acknowledgement: Arc<CommandAcknowledgement>,
+    #[cfg(feature = "verif")]
+    uid: u64,
 }
 
 struct PutParameter<'a, Key, Value, DeleteHook>
@@ -109,7 +111,15 @@ impl<Key, Value> CommandExecutor<Key, Value>
         let delete_hook = move |key| { store_clone.delete(&key); };
 
         thread::spawn(move || {
+            #[cfg(feature = "verif")]
+            let _verif_thread_guard = crate::cache::verif::ThreadGuard::new(crate::cache::verif::Role::Worker);
             while let Ok(pair) = receiver.recv() {
+                #[cfg(feature = "verif")]
+                crate::cache::verif::point(crate::cache::verif::Site::WorkerDequeued);
+                #[cfg(feature = "verif")]
+                let verif_uid = pair.uid;
+                #[cfg(feature = "verif")]
+                crate::cache::verif::emit(|| { let (kind, key_id) = crate::cache::verif::key_kind(&pair.command); crate::cache::verif::Event::ExecBegin { uid: verif_uid, kind, key_id } });
                 let command = pair.command;
                 let status = match command {
                     CommandType::Put(key_description, value) =>
@@ -147,15 +157,31 @@ impl<Key, Value> CommandExecutor<Key, Value>
                         }),
                     CommandType::Shutdown => {
                         info!("Received Shutdown command");
+                        #[cfg(feature = "verif")]
+                        crate::cache::verif::emit(|| crate::cache::verif::Event::ExecEnd { uid: verif_uid, status: CommandStatus::Accepted });
                         pair.acknowledgement.done(CommandStatus::Accepted);
+                        #[cfg(feature = "verif")]
+                        crate::cache::verif::emit(|| crate::cache::verif::Event::Acked { uid: verif_uid });
                         for command_acknowledgement_pair in receiver.iter() {
+                            #[cfg(feature = "verif")]
+                            crate::cache::verif::emit(|| crate::cache::verif::Event::Drained { uid: command_acknowledgement_pair.uid });
                             command_acknowledgement_pair.acknowledgement.done(CommandStatus::ShuttingDown);
+                            #[cfg(feature = "verif")]
+                            crate::cache::verif::emit(|| crate::cache::verif::Event::Acked { uid: command_acknowledgement_pair.uid });
                         }
                         drop(receiver);
                         break;
                     }
                 };
+                #[cfg(feature = "verif")]
+                crate::cache::verif::emit(|| crate::cache::verif::Event::ExecEnd { uid: verif_uid, status });
+                #[cfg(feature = "verif")]
+                crate::cache::verif::point(crate::cache::verif::Site::WorkerBeforeAck);
                 pair.acknowledgement.done(status);
+                #[cfg(feature = "verif")]
+                crate::cache::verif::emit(|| crate::cache::verif::Event::Acked { uid: verif_uid });
+                #[cfg(feature = "verif")]
+                crate::cache::verif::point(crate::cache::verif::Site::WorkerAfterAck);
             }
         });
     }
@@ -166,14 +192,26 @@ impl<Key, Value> CommandExecutor<Key, Value>
     /// 2) It allows `CommandExecutor` to change the status of the command inside `CommandAcknowledgement`. This would then finish the `await` at the client's end.
     pub(crate) fn send(&self, command: CommandType<Key, Value>) -> CommandSendResult {
         let acknowledgement = CommandAcknowledgement::new();
+        #[cfg(feature = "verif")]
+        let verif_uid = crate::cache::verif::next_uid();
+        #[cfg(feature = "verif")]
+        crate::cache::verif::emit(|| crate::cache::verif::Event::Sent { uid: verif_uid, kind: crate::cache::verif::key_kind(&command).0 });
+        #[cfg(feature = "verif")]
+        crate::cache::verif::point(crate::cache::verif::Site::SendBefore);
         let send_result = self.sender.send(CommandAcknowledgementPair {
             command,
             acknowledgement: acknowledgement.clone(),
+            #[cfg(feature = "verif")]
+            uid: verif_uid,
         });
+        #[cfg(feature = "verif")]
+        crate::cache::verif::point(crate::cache::verif::Site::SendAfter);
 
         match send_result {
             Ok(_) => Ok(acknowledgement),
             Err(err) => {
+                #[cfg(feature = "verif")]
+                crate::cache::verif::emit(|| crate::cache::verif::Event::SendFailed { uid: verif_uid });
                 error!("received a SendError while sending command type {}", err.0.command.description());
                 Err(CommandSendError::new(err.0.command.description()))
             }
@@ -181,6 +219,9 @@ impl<Key, Value> CommandExecutor<Key, Value>
     }
 
     /// Sends a Shutdown command to the `CommandExecutor`.
+    #[cfg(feature = "verif")]
+    pub(crate) fn verif_queue_len(&self) -> usize { self.sender.len() }
+
     pub(crate) fn shutdown(&self) -> CommandSendResult {
         self.send(CommandType::Shutdown)
     }
@@ -214,6 +255,8 @@ impl<Key, Value> CommandExecutor<Key, Value>
                 put_with_ttl_parameter.put_parameter.key_description.id,
                 put_with_ttl_parameter.ttl,
             );
+            #[cfg(feature = "verif")]
+            crate::cache::verif::point(crate::cache::verif::Site::WorkerAfterStoreInsert);
             put_with_ttl_parameter.ttl_ticker.put(
                 put_with_ttl_parameter.put_parameter.key_description.id,
                 expiry,
@@ -227,6 +270,8 @@ impl<Key, Value> CommandExecutor<Key, Value>
     fn delete(delete_parameter: DeleteParameter<Key, Value>) -> CommandStatus {
         let may_be_key_id_expiry = delete_parameter.store.delete(delete_parameter.key);
         if let Some(key_id_expiry) = may_be_key_id_expiry {
+            #[cfg(feature = "verif")]
+            crate::cache::verif::point(crate::cache::verif::Site::WorkerDeleteAfterStore);
             delete_parameter.admission_policy.delete(&key_id_expiry.0);
             if let Some(expiry) = key_id_expiry.1 {
                 delete_parameter.ttl_ticker.delete(&key_id_expiry.0, &expiry);
